@@ -32,7 +32,8 @@ RULE = ("E1: documents of <= 3 nodes (C01 alphabet) whose keys a/b are "
         "replaced, per document, by keys containing one escapable character "
         "each (13 variants . / [ ] ( ) ' \" space ^ $ %% \\, 5 variants moving the keys onto -1 / 0 / 12 / '-1' / 'b c', plus the plain "
         "variant) x every path of <= 2 segments from a %d-item vocabulary "
-        "(C01 fragment + has_child/min/max/unique/distinct/parent); E2: "
+        "(C01 fragment + has_child/min/max/unique/distinct/parent) and 102 "
+        "three-segment paths <key|index>/<*|**>/<keyword|key|index>; E2: "
         "Hypothesis documents with anchors/aliases x derived paths. Every "
         "non-virtual result of the required query is checked for (a) "
         "parent[parentref] is node, (b) ancestry chain from the root, (c) "
@@ -42,9 +43,7 @@ RULE = ("E1: documents of <= 3 nodes (C01 alphabet) whose keys a/b are "
         "the path has a keyword/traversal/search/wildcard/pass-through "
         "step; distinct by (document, path, result index)." % len(VOCAB))
 ASSUMPTIONS = ["virtual results (slices, collectors, name()) are excluded as "
-               "the property states",
-               "keys beginning with & or containing * are outside the "
-               "escapable set (no escape is defined for them)"]
+               "the property states"]
 EXHAUSTIVE = {"quick": True, "thorough": True}
 SHARD_BUDGET_S = {"quick": 100, "thorough": 2400}
 HARD_TIMEOUT_S = {"quick": 900, "thorough": 7200}
@@ -312,8 +311,16 @@ def paths_for(variant):
         kv = keyvar_of(variant)
         mapping = kv[2] if kv else variant_mapping(variant)
         out = []
-        for n in (1, 2):
-            for combo in gpaths.enum_paths_exact(n, VOCAB):
+        combos = [c for n in (1, 2)
+                  for c in gpaths.enum_paths_exact(n, VOCAB)]
+        # three segments: a concrete step, a wildcard / traversal, then a
+        # keyword or key - the handlers that probe the following segment
+        # with the very path object they later hand on
+        for first in (("key", "a"), ("key", "b"), ("index", 0)):
+            for second in (("all",), ("traverse",)):
+                for third in EXTRA + [("key", "a"), ("index", 0)]:
+                    combos.append([first, second, third])
+        for combo in combos:
                 segs = [remap_seg(s, mapping) for s in combo]
                 sep = "/" if (len(out) % 2) else "."
                 out.append(render(segs, sep, style=len(out) % 3))
